@@ -45,7 +45,7 @@ def main_log(prefix):
     return "\n".join(open(f, errors="replace").read() for f in logs), logs
 
 
-def normalise(txt, inp, outp, stdin_path, stdout_path):
+def normalise(txt, inp, outp, stdin_path, stdout_path, merge=True):
     """system calls of the main thread -> operation alphabet of Model/Io.v (close, flush and the
     computation have no system call of their own; stat is reported separately)."""
     ops, fds, stats = [], {}, 0
@@ -56,7 +56,7 @@ def normalise(txt, inp, outp, stdin_path, stdout_path):
     started = False
 
     def push(o):
-        if not (ops and ops[-1] == o and o in ("read", "write", "wstdout", "readstdin")):
+        if not (merge and ops and ops[-1] == o and o in ("read", "write", "wstdout", "readstdin")):
             ops.append(o)
     for line in txt.splitlines():
         m = LINE.match(line)
@@ -286,6 +286,8 @@ def run(rep):
             sb = Sandbox(base, sc, data, idx)
             rc, txt, se = sb.run(cli, [])
             ops = normalise(txt, sb.inp, sb.outp, sb.stdin_path, sb.stdout_path)
+            raw_ops = normalise(txt, sb.inp, sb.outp, sb.stdin_path, sb.stdout_path, merge=False)
+            n_wstdout, n_wfile = raw_ops.count("wstdout"), raw_ops.count("write")
             rep.evaluations += 1
             rep.count("scenario:" + sc.name)
             got_ops = [o for o in ops if o != "stat"]
@@ -349,13 +351,15 @@ def run(rep):
             if any(o.startswith("create") for o in mtrace):
                 when = "when=2" if sc.route == "inplace" else "when=1"     # in place: the first openat of the path is the read
                 inj.append(("create", lambda b, when=when: ["-P", b.outp, "-e", f"inject=openat:error=EACCES:{when}"], "create"))
-                inj.append(("write", lambda b: ["-P", b.outp, "-e", "inject=write:error=ENOSPC:when=1"], "write"))
+                for kw in range(1, max(1, n_wfile) + 1):      # every write call of the fault-free run, the last one included
+                    inj.append((f"write#{kw}", lambda b, kw=kw: ["-P", b.outp, "-e", f"inject=write:error=ENOSPC:when={kw}"], "write"))
             if "chmod" in mtrace:
                 inj.append(("chmod", lambda b: ["-P", b.outp, "-e", "inject=fchmod:error=EPERM:when=1"], "write"))
             if "utimes" in mtrace:
                 inj.append(("utimes", lambda b: ["-P", b.outp, "-e", "inject=utimensat:error=EPERM:when=1"], "write"))
             if "wstdout" in mtrace:
-                inj.append(("wstdout", lambda b: ["-P", b.stdout_path, "-e", "inject=write:error=ENOSPC:when=1"], "write"))
+                for kw in range(1, max(1, n_wstdout) + 1):    # every write call on standard output, incl. one issued while exiting
+                    inj.append((f"wstdout#{kw}", lambda b, kw=kw: ["-P", b.stdout_path, "-e", f"inject=write:error=ENOSPC:when={kw}"], "write"))
                 inj.append(("devfull", None, "write"))
             for name, mk, phase in inj:
                 idx += 1
